@@ -24,3 +24,14 @@ OBLIGATIONS += [
     _c("kclone_row_original_edit", 31, "row of 2 cell-runs, unbounded repeats; original edited after cloning"),
     _c("kclone_table", 43, "tall template, unbounded row-runs; set_cell on either twin"),
 ]
+
+
+# A-level: the real Row/Cell classes (string-valued repeat accessors, Cell.clone) on the lxml model
+for _fn in ['arow_get_clone']:
+    _secs = {'arow_set': 255, 'arow_insert': 235, 'arow_delete': 35, 'arow_get_clone': 40}[_fn]
+    OBLIGATIONS.append(Obl(name=_fn, module="h_arow", func=_fn, shadow=True, timeout=_secs * 4, replay="r_h_arow:" + _fn, weight=_secs,
+                           tier="quick" if _secs < 100 else "thorough",
+                           bounds="real Row of two cell-runs with repeats in 1..3, positions <= 7, inserted repeat <= 3, probe <= 10",
+                           encodes=["src/odfdo/row.py:Row (all methods used, incl. repeated accessors)", "src/odfdo/cell.py:Cell.__init__,repeated,_set_repeated,clone,get_value,set_value",
+                                    "src/odfdo/element.py:Element.insert,delete,index,clone,_get_element_idx2,elements_repeated_sequence", "src/odfdo/element_cached.py (all)"],
+                           stubs=["/verif/shadow/lxml (symdom)"]))
